@@ -170,12 +170,18 @@ func symStrSlice(s symStr, lo, hi value) value {
 	return symStr{fmt.Sprintf("(str.substr %s %s (- %s %s))", s.t, l, h, l)}
 }
 
+// strTree: SMT term of the text of a JSON document whose tree is known -> the tree
+var strTree = map[string]*jnode{}
+
 func symStrConv(dst types.Type, s symStr) value {
 	if b, ok := dst.(*types.Basic); ok && b.Kind() == types.String {
 		return s
 	}
 	if sl, ok := dst.(*types.Slice); ok {
 		if b, ok := sl.Elem().Underlying().(*types.Basic); ok && b.Kind() == types.Uint8 {
+			if n, ok := strTree[s.t]; ok {
+				return symBytes{str: s, tree: n}
+			}
 			return symBytes{str: s}
 		}
 	}
